@@ -387,7 +387,7 @@ func (n *jnode) slots(acc *[]jslot) {
 
 // jConfusions are the replacement values used for type confusion; "$" entries wrap / derive from the original
 var jConfusions = []string{"null", "true", "false", "0", "-1", "1.5", "1e400", "-1e400", "9007199254740993", "18446744073709551616",
-	"-9223372036854775809", `""`, `"x"`, `"did:nuts:x"`, `"://"`, `"0"`, "[]", "{}", "[$]", `{"x":$}`, "[$,$]", `[null]`, `[[]]`, `{"":null}`, `"$s"`, `"$long"`, `"\u0000"`, `"` + "�" + `"`}
+	"-9223372036854775809", `""`, `"x"`, `"did:nuts:x"`, `"://"`, `"0"`, "[]", "{}", "[$]", `{"x":$}`, "[$,$]", `[null]`, `[[]]`, `{"":null}`, `"$s"`, `"$long"`, "$first", "$dup", `"\u0000"`, `"` + "�" + `"`}
 
 func jraw(s string) *jnode {
 	n, err := jparse([]byte(s))
@@ -408,6 +408,18 @@ func jconfuse(orig *jnode, c string) *jnode {
 		return &jnode{kind: 'o', keys: []string{"x"}, kids: []*jnode{orig.clone()}}
 	case `"$s"`:
 		return &jnode{kind: 's', str: string(orig.bytes())}
+	case "$first": // plural → singular: an array is replaced by its first element (empty array: null)
+		if orig.kind == 'a' && len(orig.kids) > 0 {
+			return orig.kids[0].clone()
+		}
+		return &jnode{kind: 'n'}
+	case "$dup": // an array gets its first element once more (duplicate entries); other values become a two-element array
+		if orig.kind == 'a' && len(orig.kids) > 0 {
+			c := orig.clone()
+			c.kids = append(c.kids, orig.kids[0].clone())
+			return c
+		}
+		return &jnode{kind: 'a', kids: []*jnode{orig.clone(), orig.clone()}}
 	case `"$long"`: // longer than any fixed-size buffer a key coordinate, hash or id is copied into
 		return &jnode{kind: 's', str: strings.Repeat("B", 300)} // (base64 of a non-zero number)
 	}
@@ -569,5 +581,10 @@ func jsystematic(valid []byte, each func(b []byte, kind string)) {
 	b := root.bytes()
 	for cut := 1; cut < len(b); cut += 1 + len(b)/40 {
 		each(b[:cut], "sys-truncate")
+	}
+	// whole-value shapes: the document inside empty / single / nested / mixed arrays, and the bare scalars
+	v := string(b)
+	for _, w := range []string{"[]", " [ ] ", "[[]]", "[" + v + "]", "[[" + v + "]]", "[" + v + "," + v + "]", "[" + v + ",[]]", "[" + v + ",null]", "[null," + v + "]", "null", "{}", `""`, "5", "true", " " + v + " ", v + v} {
+		each([]byte(w), "sys-whole-shape")
 	}
 }
